@@ -128,10 +128,10 @@ fn path_count(body: &[AbsInstr]) -> u64 {
 
 /// Run the real code: Ok(depths for k = 1..=MAX_K) or Err(text) when the graph cannot be built.
 /// `None` when the program has no basic block (empty body).
-fn run_real(body: &[AbsInstr]) -> Option<Result<Vec<usize>, String>> {
+fn run_real(body: &[AbsInstr], salt: usize) -> Option<Result<Vec<usize>, String>> {
     let mut program = Program::new();
     for (pos, i) in body.iter().enumerate() {
-        program.add_instruction(instr(&text_of(i, pos)));
+        program.add_instruction(instr(&text_of(i, pos + salt)));
     }
     let graph = ControlFlowGraph::from(&program);
     let blocks = graph.into_blocks();
@@ -179,9 +179,9 @@ fn shares_qubit(body: &[AbsInstr]) -> bool {
 }
 
 /// compare one concrete body with the statement (and with the model's expectation, if given)
-fn judge(o: &mut Outcome, body: &[AbsInstr], want: Option<(&[usize], bool)>, what: &str) {
+fn judge(o: &mut Outcome, body: &[AbsInstr], want: Option<(&[usize], bool)>, what: &str, salt: usize) {
     let supported = body.iter().all(|i| i.k != "Unsupported");
-    let real = match run_real(body) {
+    let real = match run_real(body, salt) {
         None => {
             o.count("empty_body");
             return;
@@ -227,7 +227,7 @@ pub fn replay(_ctx: &Ctx, case: &Value) -> Outcome {
         // a history rejected by trace validation: judge its body against the statement
         let body = parse_body(h[0]["body"].as_array().expect("reset event with body"));
         let mut o = Outcome::ok(shares_qubit(&body));
-        judge(&mut o, &body, None, "recorded body");
+        judge(&mut o, &body, None, "recorded body", 0);
         return o;
     }
     let body = parse_body(arr(case, "body"));
@@ -237,7 +237,9 @@ pub fn replay(_ctx: &Ctx, case: &Value) -> Outcome {
     let salt = crate::runner::hash_line(&case.to_string());
     for variant in 0..3 {
         let b = spelled(&body, variant, salt);
-        judge(&mut o, &b, Some((&want, failed)), &format!("spelling {variant}"));
+        // the spelling also shifts the gate names, so that every position is once a plain gate, once a
+        // parametric gate and once a gate with modifiers (DAGGER / CONTROLLED: modifiers are not qubits)
+        judge(&mut o, &b, Some((&want, failed)), &format!("spelling {variant}"), variant);
     }
     o
 }
@@ -289,7 +291,7 @@ pub fn drive(ctx: &Ctx) -> Summary {
             }
         }
         let mut o = Outcome::ok(shares_qubit(&body));
-        let real = run_real(&body).expect("non-empty body");
+        let real = run_real(&body, (h % 3) as usize).expect("non-empty body");
         util::emit(&mut out, &json!({"ev": "reset", "body": body_json(&body),
                                      "res": if real.is_ok() { "ok" } else { "err" }}));
         o.count("events");
